@@ -3,10 +3,13 @@ package rules
 import (
 	"go/token"
 	"go/types"
+	"strconv"
+	"strings"
 
 	"golang.org/x/tools/go/ssa"
 
 	"verif/internal/core"
+	"verif/internal/lockset"
 	"verif/internal/ssax"
 )
 
@@ -790,7 +793,6 @@ func c34(c *core.Ctx) {
 	valF := field(c, "server", "Node", "val")
 	attrF := field(c, "server", "Node", "attr")
 	dataF := field(c, "server", "MapNamespace", "Data")
-	_ = attrF
 	nodeSet := c.P.SSAFunc(obj(c, "server", "Node", "SetAttribute"))
 	touches := func(f *ssa.Function) (bool, string) {
 		for g := range reachableFrom(c, []*ssa.Function{f}, "server") {
@@ -807,6 +809,79 @@ func c34(c *core.Ctx) {
 		}
 		return false, ""
 	}
+	// C34.readpure: a value read has no effect on what later reads return
+	c.Rule("C34.readpure", "no function reachable from an Attribute method of the server's address space (the value read path: (*Node).Attribute and every NameSpace implementation's Attribute) stores into a field of server.Node or into MapNamespace.Data outside a mutex-protected region: a read that writes back what it evaluated (a cache filled by readers) can put a value older than a completed write back in place, and every later read then contradicts that write", 1)
+	{
+		// value storage of a node: the value function and any kept *ua.DataValue (not the map of the other attributes)
+		isValueStorage := func(t types.Type) bool {
+			ts := t.String()
+			return strings.HasSuffix(ts, "server.ValueFunc") || strings.HasSuffix(ts, "ua.DataValue") || strings.HasSuffix(ts, "ua.Variant")
+		}
+		isNodeField := func(fa *ssa.FieldAddr) bool {
+			t := fa.X.Type()
+			if p, ok := t.Underlying().(*types.Pointer); ok {
+				t = p.Elem()
+			}
+			n, ok := t.(*types.Named)
+			return ok && n.Obj().Name() == "Node" && n.Obj().Pkg() != nil && strings.HasSuffix(n.Obj().Pkg().Path(), "/server")
+		}
+		var roots []*ssa.Function
+		for _, f := range libFns(c, "server") {
+			if f.Name() == "Attribute" && f.Signature.Recv() != nil {
+				roots = append(roots, f)
+			}
+		}
+		c.Count("Attribute read-path roots in server", len(roots))
+		rp := reachableFrom(c, roots, "server")
+		sites := 0
+		badStores := map[*ssa.Function]int{}
+		for _, f := range libFns(c, "server") {
+			if !rp[f] {
+				continue
+			}
+			sites++
+			for _, b := range f.Blocks {
+				for _, in := range b.Instrs {
+					what := ""
+					switch x := in.(type) {
+					case *ssa.Store:
+						if fa, ok := x.Addr.(*ssa.FieldAddr); ok {
+							_, freshObj := ssax.Strip(fa.X).(*ssa.Alloc) // initialising an object this function has just allocated
+							if fv := fieldOf(fa); fv != nil && !freshObj && isNodeField(fa) && isValueStorage(fv.Type()) {
+								what = "Node." + fv.Name()
+							}
+						}
+					case *ssa.MapUpdate:
+						if lf := loadedField(x.Map); lf.f != nil && lf.f == dataF {
+							what = ssax.FieldString(lf.f)
+						}
+					}
+					if what == "" {
+						continue
+					}
+					locked := false
+					for _, call := range ssax.Calls(f) {
+						if op, ok := lockset.LockOp(call); ok && op.Acquire && ssax.Dominates(call, in) {
+							locked = true
+						}
+					}
+					if !locked {
+						badStores[f]++
+					}
+					c.Ob("C34.readpure", fname(f)+"·store "+what, pos(c, in), locked, "the read path writes node value storage ("+what+") without holding a mutex: "+boolStr(!locked))
+				}
+			}
+		}
+		c.Count("functions on the value read path", sites)
+		for _, r := range roots {
+			bad := 0
+			for g := range reachableFrom(c, []*ssa.Function{r}, "server") {
+				bad += badStores[g]
+			}
+			c.Ob("C34.readpure", fname(r)+"·read path free of unlocked value stores", c.P.Pos(r.Pos()), bad == 0, "unlocked stores into node value storage reachable from this read: "+strconv.Itoa(bad))
+		}
+	}
+	_ = attrF
 	reach := reachableFrom(c, append(registeredHandlers(c), handle), "server")
 	for _, f := range libFns(c, "server") {
 		if !reach[f] {
